@@ -174,6 +174,27 @@ func (ch *Chaos) apply(a faultAction) {
 		ch.mu.Lock()
 		ch.lateDup = a.P
 		ch.mu.Unlock()
+	case "streamcut":
+		// every new stream is, with probability P, cut after a PRNG number of bytes in one direction
+		// (reset or black hole); P = 0 ends the fault
+		if a.P <= 0 {
+			ch.C.Net.StreamCut = nil
+			break
+		}
+		p := a.P
+		ch.C.Net.StreamCut = func(conn *Conn, dialerSide bool) int64 {
+			if ch.C.Net.Float() >= p/2 {
+				return -1
+			}
+			if ch.C.Net.Intn(2) == 0 {
+				if dialerSide {
+					conn.d2a.cutHard = true
+				} else {
+					conn.a2d.cutHard = true
+				}
+			}
+			return int64(ch.C.Net.Intn(600))
+		}
 	case "partition":
 		in := map[int]bool{}
 		for _, i := range a.Set {
@@ -351,6 +372,7 @@ func (ch *Chaos) stopFaults() {
 	ch.loss, ch.dup, ch.delay, ch.lateDup = 0, 0, 0, 0
 	ch.mu.Unlock()
 	ch.C.Net.ClearBlocks()
+	ch.C.Net.StreamCut = nil
 }
 
 // RunUntil plays the script until virtual offset `until`, polling every 200 ms.
